@@ -148,6 +148,43 @@ def print_assumptions(prop: str, theorems: list[str]) -> tuple[bool, dict]:
     return True, {"axioms": sorted(axioms), "closed_theorems": closed}
 
 
+ALLOWED_AXIOM = re.compile(
+    r"^(Coq\.)?((Numbers\.Cyclic\.Int63\.)?(PrimInt63|Uint63)\.|(Floats\.)?(PrimFloat|FloatAxioms)\.|"
+    r"(Logic\.)?Classical_Prop\.classic$|(Reals\.)?ClassicalDedekindReals\.sig_(forall|not)_dec$|"
+    r"(Logic\.)?FunctionalExtensionality\.functional_extensionality_dep$|"
+    r"(Logic\.)?(ProofIrrelevance\.proof_irrelevance|Eqdep\.Eq_rect_eq\.eq_rect_eq|JMeq\.JMeq_eq)$)")
+
+
+def allowed_axiom(a: str) -> bool:
+    """primitive ints/floats and their specifications, and the axioms the standard library
+    itself declares; anything else (in particular anything under BB.) is ours and forbidden"""
+    return bool(ALLOWED_AXIOM.match(a))
+
+
+def coqchk(prop: str) -> tuple[bool, dict]:
+    rc, so, se = sh(f"timeout 1500 coqchk -silent -o -R {COQ} BB BB.Props.{prop}", timeout=1600, cwd=COQ)
+    out = so + se
+    if rc != 0:
+        return False, {"error": out[-2000:]}
+    axioms, section = [], None
+    problems = []
+    for line in out.splitlines():
+        t = line.strip()
+        if t.startswith("* "):
+            section = t
+            if ("type-in-type" in t or "unsafe" in t or "positivity" in t) and "<none>" not in t:
+                problems.append(t)
+        elif section == "* Axioms:" and t:
+            axioms.append(t)
+        elif section and section != "* Axioms:" and t and not t.startswith("*") and "<none>" not in section \
+                and ("type-in-type" in section or "unsafe" in section or "positivity" in section):
+            problems.append(section + " " + t)
+    bad = [a for a in axioms if not allowed_axiom(a)]
+    if bad or problems:
+        return False, {"error": "coqchk: " + "; ".join(bad + problems)}
+    return True, {"axioms": len(axioms)}
+
+
 def count_obligations(files: list[str]) -> int:
     n = 0
     for f in files:
@@ -212,7 +249,7 @@ def run_check(prop: str, spec: dict) -> int:
         if not ok:
             failures.append(("translator", log))
         target = spec["props_file"]
-        ok, log = build([target], clean=(tier == "thorough" and os.environ.get("VERIF_NO_CLEAN") is None))
+        ok, log = build([target])
         build_ok = ok
         if not ok:
             failures.append(("proof", log))
@@ -221,13 +258,24 @@ def run_check(prop: str, spec: dict) -> int:
         if not model_ok:
             failures.append(("model", mlog))
     finally:
-        fcntl.flock(lock, fcntl.LOCK_UN)
+        # keep a SHARED lock while compiled files are read (Print Assumptions, coqchk, case
+        # evaluation): a concurrent check that has to rebuild waits for the readers
+        fcntl.flock(lock, fcntl.LOCK_SH)
     assum = {"axioms": [], "closed_theorems": 0}
     if build_ok:
         ok, assum = print_assumptions(prop, spec["theorems"])
         if not ok:
             failures.append(("assumptions", assum.get("error", "")))
             assum = {"axioms": [], "closed_theorems": 0}
+        bad_ax = [a for a in assum["axioms"] if not allowed_axiom(a)]
+        if bad_ax:
+            failures.append(("assumptions", "axioms outside the standard library: " + ", ".join(bad_ax)))
+    chk = None
+    if build_ok and tier == "thorough":
+        # independent re-check of the compiled property file and everything it depends on
+        ok, chk = coqchk(prop)
+        if not ok:
+            failures.append(("coqchk", chk.get("error", "")))
     deps = dep_closure(target) if build_ok else []
     obligations = count_obligations(deps)
 
